@@ -50,7 +50,9 @@ func (fr *Frame) bigCall(st *State, fn *ssa.Function, args []Value) (Value, bool
 	if !v.isBig(bigT()) {
 		return nil, false
 	}
-	used := func() { v.assume("math/big.Int is modelled as a mathematical integer; methods of math/big are interpreted by their documented meaning (assumed, math/big is not verified): " + fn.Name()) }
+	used := func() {
+		v.assume("math/big.Int is modelled as a mathematical integer; methods of math/big are interpreted by their documented meaning (assumed, math/big is not verified): " + fn.Name())
+	}
 	recv := fn.Signature.Recv()
 	if recv == nil {
 		switch fn.Name() {
